@@ -1733,4 +1733,83 @@ theorem flatBody_spec : ∀ (ns : List Node) (j : Nat) (inp : Nat → FSrc) (bas
       exact this
 end
 
+
+/-! ## a checker for `WF` (used for concrete definitions) -/
+
+def srcWFb (na : Nat) (nouts : Nat → Nat) (j : Nat) (n : Node) (i : Nat) : Src → Bool
+  | .arg k => decide (k < na)
+  | .out j' o => decide (j' < j) && decide (o < nouts j')
+  | .const v => !v.isNd
+  | .none => !(n.dflt i).isNd
+
+def srcsWFb (na : Nat) (nouts : Nat → Nat) (j : Nat) (n : Node) : List Src → Nat → Bool
+  | [], _ => true
+  | s :: ss, i => srcWFb na nouts j n i s && srcsWFb na nouts j n ss (i + 1)
+
+def retWFb (na : Nat) (body : List Node) : Ret → Bool
+  | .arg k => decide (k < na)
+  | .out j o => decide (j < body.length) && decide (o < noutsOf body j)
+
+mutual
+def wfb : Node → Bool
+  | .leaf _ _ => true
+  | .mac args body rets _ _ =>
+    wfBodyb args.length (noutsOf body) body 0 && rets.all (retWFb args.length body)
+def wfBodyb (na : Nat) (nouts : Nat → Nat) : List Node → Nat → Bool
+  | [], _ => true
+  | n :: ns, j =>
+    wfb n && decide (n.srcs.length = n.arity) && decide (nouts j = n.nout) &&
+      srcsWFb na nouts j n n.srcs 0 && wfBodyb na nouts ns (j + 1)
+end
+
+theorem srcWFb_sound {na nouts j n i s} (h : srcWFb na nouts j n i s = true) : SrcWF na nouts j n i s := by
+  cases s with
+  | arg k => simpa [srcWFb, SrcWF] using h
+  | out j' o => simpa [srcWFb, SrcWF] using h
+  | const v =>
+    simp only [srcWFb, Bool.not_eq_true'] at h
+    exact ne_nd_of_isNd_false h
+  | none =>
+    simp only [srcWFb, Bool.not_eq_true'] at h
+    exact ne_nd_of_isNd_false h
+
+theorem srcsWFb_sound {na nouts j n} (ss : List Src) (i0 : Nat) (h : srcsWFb na nouts j n ss i0 = true) :
+    ∀ i s, ss[i]? = some s → SrcWF na nouts j n (i0 + i) s := by
+  induction ss generalizing i0 with
+  | nil => intro i s hs; simp at hs
+  | cons x xs ih =>
+    simp only [srcsWFb, Bool.and_eq_true] at h
+    intro i s hs
+    cases i with
+    | zero => simp at hs; subst hs; exact srcWFb_sound h.1
+    | succ i =>
+      have := ih (i0 + 1) h.2 i s (by simpa using hs)
+      have e : i0 + 1 + i = i0 + (i + 1) := by omega
+      rw [e] at this; exact this
+
+theorem retWFb_sound {na body x} (h : retWFb na body x = true) : RetWF na body x := by
+  cases x with
+  | arg k => simpa [retWFb, RetWF] using h
+  | out j o => simpa [retWFb, RetWF] using h
+
+mutual
+theorem wfb_sound : ∀ (n : Node), wfb n = true → WF n
+  | .leaf _ _, _ => by simp [WF]
+  | .mac args body rets _ _, h => by
+    simp only [wfb, Bool.and_eq_true, List.all_eq_true] at h
+    simp only [WF]
+    exact ⟨wfBodyb_sound _ _ body 0 h.1, fun x hx => retWFb_sound (h.2 x hx)⟩
+theorem wfBodyb_sound (na : Nat) (nouts : Nat → Nat) : ∀ (ns : List Node) (j : Nat),
+    wfBodyb na nouts ns j = true → WFBody na nouts ns j
+  | [], _, _ => by simp [WFBody]
+  | n :: ns, j, h => by
+    simp only [wfBodyb, Bool.and_eq_true, decide_eq_true_eq] at h
+    simp only [WFBody]
+    obtain ⟨⟨⟨⟨h1, h2⟩, h3⟩, h4⟩, h5⟩ := h
+    refine ⟨wfb_sound n h1, h2, h3, ?_, wfBodyb_sound na nouts ns (j + 1) h5⟩
+    intro i s hs
+    have := srcsWFb_sound n.srcs 0 h4 i s hs
+    rwa [Nat.zero_add] at this
+end
+
 end PwVerif.Macro
